@@ -619,7 +619,7 @@ def check_index_history(case):
 def tag(case, f):
     if f.kind == 'not-all-or-nothing' and ('extend_items_partial' in f.detail or 'extend_items_badlen' in f.detail):
         return 'framego-extend-items-partial-on-failure'
-    if f.kind == 'leak' and any(s['s'] == 'copycopy' for s in case['steps']):
+    if f.kind == 'leak' and '(copy.copy alias)' in f.detail and any(s['s'] == 'copycopy' for s in case['steps']):
         # growth visible through a copy.copy() of a FrameGO (shared _blocks/_columns)
         return 'copy-copy-of-framego-shares-state'
     return None
